@@ -10,7 +10,7 @@ Y_MERGE, Y_KERNEL, Y_SPLIT, Y_DM = 1, 2, 4, 8
 # input indices of harness/sched_inputs.h
 TREES = [0, 1, 2, 3, 4, 5, 6, 15]
 DPS = [7, 8, 9, 10]
-KMS = [11, 12, 13]
+KMS = [11, 12, 13, 16]
 
 
 def jobs_for(tier):
@@ -35,6 +35,8 @@ def jobs_for(tier):
         J.append(("vgomp-O2", 11, 2, 0, 1, 1, 0, Y_SPLIT, 8))
         J.append(("vgomp-O2", 11, 2, 0, 1, 1, 2, Y_MERGE, 8))
         J.append(("vgomp-O2", 12, 3, 0, 1, 1, 1, Y_SPLIT, 8))
+        J.append(("vgomp-O2", 16, 2, 0, 1, 1, 1, Y_SPLIT, 8))       # k-means restarts with exactly tied scores
+        J.append(("vgomp-O2", 16, 2, 0, 1, 1, 0, Y_SPLIT, 8))
     else:
         for k in TREES:
             small = k in (0, 1, 5)
